@@ -23,6 +23,7 @@ class Pipe:
         self.ready = z3.Bool(f"pipe{i}.ready")
         self.success = z3.Bool(f"pipe{i}.success")
         self.sent = []
+        self.recvs = 0
         self.was_closed = False
 
     def getattr(self, ex, st, name):
@@ -33,8 +34,10 @@ class Pipe:
         if name == "send":
             return Fn(model=lambda ex, st, a, k: self.sent.append(a[0]), name="send")
         if name == "recv":
-            return Fn(model=lambda ex, st, a, k: (({"a0": Opaque("r")}, {"a0": Opaque("te")}, {"a0": Opaque("tr")}, {"a0": {}}), self.success),
-                      name="recv")
+            def recv(ex, st, a, k):
+                self.recvs += 1
+                return (({"a0": Opaque("r")}, {"a0": Opaque("te")}, {"a0": Opaque("tr")}, {"a0": {}}), self.success)
+            return Fn(model=recv, name="recv")
         if name == "close":
             def close(ex, st, a, k):
                 self.was_closed = True
@@ -42,12 +45,49 @@ class Pipe:
         raise Undecided(f"pipe attribute {name}")
 
 
-class ExcType:
+class DeadPipe(Pipe):
+    """pipe to a worker that may have been killed: send raises BrokenPipeError, recv raises EOFError (symbolic flag)"""
+
+    def __init__(self, i):
+        Pipe.__init__(self, i)
+        self.dead = z3.Bool(f"pipe{i}.worker_dead")
+
+    def getattr(self, ex, st, name):
+        if name in ("send", "recv"):
+            inner = Pipe.getattr(self, ex, st, name)
+
+            def f(ex, st, a, k, name=name, inner=inner):
+                if ex.decide(st, self.dead):
+                    raise PyRaise("BrokenPipeError" if name == "send" else "EOFError")
+                return inner.model(ex, st, a, k)
+            return Fn(model=f, name=name)
+        return Pipe.getattr(self, ex, st, name)
+
+
+class ExcInst:
+    """the exception instance a worker put on the error queue"""
+
     def __init__(self, name):
         self.exc_name = name
 
+    def isinstance(self, ex, st, names):
+        return any(n in ("BaseException", "Exception", self.exc_name) for n in names)
+
+
+class ExcType:
+    """an ARBITRARY exception class: calling it with one positional argument either builds an instance or fails with TypeError
+    (built-ins such as UnicodeDecodeError and user classes with other signatures)"""
+
+    def __init__(self, name):
+        self.exc_name = name
+
+    def construct(self, ex, st, args):
+        if ex.decide(st, z3.Bool(fresh_name("exc.ctor_accepts_one_arg"))):
+            return ExcInst(self.exc_name)
+        raise PyRaise("TypeError")
+
     def call(self, ex, st, args, kwargs):
-        return self
+        return self.construct(ex, st, args)
 
 
 class ErrQueue:
@@ -66,7 +106,7 @@ class ErrQueue:
                     self.first = idx
                 else:
                     idx = 1 - self.first
-                return (idx, ExcType(f"WorkerError{self.gets}"), Opaque("value"), Opaque("trace"))
+                return (idx, ExcType(f"WorkerError{self.gets}"), ExcInst(f"WorkerError{self.gets}"), Opaque("trace"))
             return Fn(model=get, name="get")
         if name == "empty":
             return Fn(model=lambda ex, st, a, k: z3.Bool(fresh_name("err.empty")), name="empty")
@@ -77,7 +117,7 @@ def build(tier):
     P = Prop("C13")
     closed, state = z3.Bool("closed"), z3.Int("state")
     P.axioms += [0 <= state, state <= 3]
-    pipes = [Pipe(0), Pipe(1)]
+    pipes = [DeadPipe(0), DeadPipe(1)]
     queue = ErrQueue()
 
     def mk_self(ex, st, label):
@@ -98,6 +138,8 @@ def build(tier):
     P.lib["agilerl.vector.pz_async_vec_env.logger.error"] = lambda ex, st, a, k: None
     P.specns.update(dict(S=STATES, closed0=closed, state0=state))
 
+    P.specns["any_dead"] = lambda: z3.Or(*[p.dead for p in pipes])
+
     def sent_all(cmd):
         return lambda: z3.BoolVal(all(len(p.sent) == 1 and isinstance(p.sent[0], tuple) and p.sent[0][0] == cmd for p in pipes))
     for cmd in ("reset", "step", "_call"):
@@ -107,14 +149,17 @@ def build(tier):
               ("step_async", {"actions": lambda ex, st, l: [Opaque("act0"), Opaque("act1")]}, "WAITING_STEP", "sent_step()"),
               ("call_async", {"name": lambda ex, st, l: "render", "args": lambda ex, st, l: (), "kwargs": lambda ex, st, l: {}}, "WAITING_CALL", "sent_call()")]
     for name, params, nxt, sent in asyncs:
-        P.contract(f"{CLS}.{name}", params=dict(self=mk_self, **params), requires=[], frame_fields=False,
+        P.contract(f"{CLS}.{name}", params=dict(self=mk_self, **params), requires=["not any_dead()"], frame_fields=False,
                    raises={"ClosedEnvironmentError": "closed0", "AlreadyPendingCallError": "not closed0 and state0 != 0"}, raises_iff=True,
                    ensures_raise={"ClosedEnvironmentError": ["self._state == state0", "nothing_sent()"],
                                   "AlreadyPendingCallError": ["self._state == state0", "nothing_sent()"]},   # misuse leaves the env usable
                    ensures=[f"self._state == {STATES[nxt]}", sent], replay="c13:misuse")
     ready_all = lambda: z3.And(*[z3.And(z3.Not(p.closed), p.ready) for p in pipes])
     succ_all = lambda: z3.And(*[p.success for p in pipes])
-    P.specns.update(dict(ready_all=ready_all, succ_all=succ_all))
+    P.specns.update(dict(any_dead=lambda: z3.Or(*[p.dead for p in pipes]),
+                         drained_or_dead=lambda: z3.And(*[z3.Or(p.dead, z3.BoolVal(p.recvs == 1)) for p in pipes]),
+                         dead_dropped=lambda o: z3.And(*[z3.Implies(p.dead, z3.BoolVal(p.was_closed and o.fields["parent_pipes"][i] is None)) for i, p in enumerate(pipes)])))
+    P.specns.update(dict(ready_all=ready_all, succ_all=succ_all, drained=lambda: z3.BoolVal(all(p.recvs == 1 for p in pipes))))
     waits = [("reset_wait", "WAITING_RESET"), ("step_wait", "WAITING_STEP"), ("call_wait", "WAITING_CALL")]
     for name, need in waits:
         n = STATES[need]
@@ -122,19 +167,108 @@ def build(tier):
                    raises={"ClosedEnvironmentError": "closed0",
                            "NoAsyncCallError": f"not closed0 and state0 != {n}",
                            "TimeoutError": f"not closed0 and state0 == {n} and timeout is not None and not ready_all()",
-                           "WorkerError1": f"not closed0 and state0 == {n} and not succ_all()",
-                           "WorkerError2": f"not closed0 and state0 == {n} and not succ_all()"},
+                           "EOFError": f"not closed0 and state0 == {n} and any_dead()",        # a killed worker
+                           "WorkerError1": f"not closed0 and state0 == {n} and not succ_all() and not any_dead()",
+                           "WorkerError2": f"not closed0 and state0 == {n} and not succ_all() and not any_dead()"},
                    ensures_raise={"ClosedEnvironmentError": ["self._state == state0"], "NoAsyncCallError": ["self._state == state0"],
-                                  "TimeoutError": ["self._state == 0"], "WorkerError1": ["self._state == 0"], "WorkerError2": ["self._state == 0"]},
-                   ensures=["self._state == 0", "succ_all()", "implies(timeout is not None, ready_all())"], replay="c13:misuse")
+                                  # a timed-out call is still pending: the state may only say "nothing pending" once every reply was read
+                                  "TimeoutError": ["implies(self._state == 0, drained())"],
+                                  "WorkerError1": ["self._state == 0", "drained()"], "WorkerError2": ["self._state == 0", "drained()"],
+                                  # a dead worker ends the call: nothing stays in flight, its pipe is closed and dropped
+                                  "EOFError": ["self._state == 0", "drained_or_dead()", "dead_dropped(self)"]},
+                   ensures=["self._state == 0", "drained()", "succ_all()", "not any_dead()", "implies(timeout is not None, ready_all())"], replay="c13:faults")
     # _poll_pipe_envs: True only if every pipe is open and has data within the remaining time
     P.contract(f"{CLS}._poll_pipe_envs", params=dict(self=mk_self, timeout="opt:real"), requires=["not closed0"], frame_fields=False,
                result="bool", modifies=[],
                ensures=["result == (timeout is None or ready_all())" if False else "implies(timeout is not None, result == ready_all())",
                         "implies(timeout is None, result == True)"], replay="c13:misuse")
-    P.assumptions += ["two sub-environments (concrete), symbolic flags", "wall-clock, process liveness and hangs are outside the contracts"]
-    P.uncovered += ["close() returns promptly and leaves no worker alive; killed workers; fault interleavings; real timeouts (bounded native adapter only)",
-                    "set_attr, close_extras"]
+    # ---- close_extras: whatever the pending call does (returns, times out, surfaces a worker's error, finds a dead worker),
+    # close() lets no exception escape, and every worker is terminated or was told to close, every pipe closed, every process joined
+    class Proc:
+        def __init__(self, i):
+            self.alive = z3.Bool(f"proc{i}.alive")
+            self.terminated = self.joined = False
+
+        def getattr(self, ex, st, name):
+            if name == "is_alive":
+                return Fn(model=lambda ex, st, a, k: self.alive, name=name)
+            if name == "terminate":
+                return Fn(model=lambda ex, st, a, k: setattr(self, "terminated", True), name=name)
+            if name == "join":
+                return Fn(model=lambda ex, st, a, k: setattr(self, "joined", True), name=name)
+            raise Undecided(f"process attribute {name}")
+
+    class StateV:
+        def __init__(self, name):
+            self.name = name
+
+        def getattr(self, ex, st, name):
+            if name == "value":
+                return {"DEFAULT": "default", "WAITING_RESET": "reset", "WAITING_STEP": "step", "WAITING_CALL": "call"}[self.name]
+            raise Undecided(name)
+
+        def compare(self, ex, st, op, other, swapped):
+            import ast
+            same = (other == STATES[self.name]) if isinstance(other, int) else (isinstance(other, StateV) and other.name == self.name)
+            return (not same) if isinstance(op, ast.NotEq) else same
+
+    procs, cpipes = [Proc(0), Proc(1)], [DeadPipe(0), DeadPipe(1)]
+    P.lib["agilerl.vector.pz_async_vec_env.logger.warn"] = lambda ex, st, a, k: None
+
+    def pending(ex, st, a, k):
+        """the pending *_wait as its own contract describes it: returns, or raises TimeoutError / the worker's error / EOFError"""
+        o = fresh_name("pending_wait.outcome")
+        if ex.decide(st, z3.Bool(o + ".returns")):
+            return None
+        if ex.decide(st, z3.Bool(o + ".times_out")):
+            raise PyRaise("TimeoutError")
+        if ex.decide(st, z3.Bool(o + ".worker_error")):
+            raise PyRaise("WorkerError1")
+        raise PyRaise("EOFError")
+    for sname in STATES:
+        for none1 in (False, True):
+            def mk_close_self(ex, st, label, sname=sname, none1=none1):
+                for i in range(2):
+                    procs[i].__init__(i)
+                    cpipes[i].__init__(i)
+                o = Obj(CLS, label="self")
+                o.fields.update(dict(_state=StateV(sname), parent_pipes=[cpipes[0], None if none1 else cpipes[1]], processes=list(procs),
+                                     reset_wait=Fn(model=pending, name="reset_wait"), step_wait=Fn(model=pending, name="step_wait"),
+                                     call_wait=Fn(model=pending, name="call_wait")))
+                return o
+
+            def closed_down(none1=none1):
+                ok = all(p.joined for p in procs)
+                for i, (p, pipe) in enumerate(zip(procs, cpipes)):
+                    if i == 1 and none1:
+                        continue
+                    ok = ok and pipe.was_closed
+                return z3.BoolVal(ok)
+
+            def stopped(none1=none1):
+                # every worker that is still alive was terminated, or its (open) pipe was sent "close"
+                out = []
+                for i, (p, pipe) in enumerate(zip(procs, cpipes)):
+                    told = any(isinstance(m, tuple) and m[0] == "close" for m in pipe.sent)
+                    if p.terminated or told:
+                        continue
+                    if i == 1 and none1:
+                        continue          # pipe None = this worker already reported an error and leaves its loop on its own (_async_worker's except/finally); join() waits for it
+                    else:
+                        out.append(z3.Or(z3.Not(p.alive), pipe.closed, pipe.dead))
+                return z3.And(*out) if out else z3.BoolVal(True)
+            tag = f"{sname}{'-pipe1-None' if none1 else ''}"
+            P.specns[f"closed_down_{tag.replace('-', '_')}"] = closed_down
+            P.specns[f"stopped_{tag.replace('-', '_')}"] = stopped
+            P.contract(f"{CLS}.close_extras", variant=tag, params=dict(self=mk_close_self, timeout="opt:real", terminate="bool"), requires=[], frame_fields=False,
+                       raises={}, raises_iff=True,
+                       ensures=[f"closed_down_{tag.replace('-', '_')}()", f"stopped_{tag.replace('-', '_')}()"], replay="c13:faults")
+    P.assumptions += ["a worker whose pipe was set to None has reported an error and exits on its own (the except/finally of _async_worker)", "two sub-environments (concrete), symbolic flags", "wall-clock, process liveness and hangs are outside the contracts"]
+    P.uncovered += ["wall-clock promptness of close(), real process liveness and real timeouts (bounded native adapters only); the contracts prove that close_extras lets no exception escape and terminates / closes / joins every worker on every outcome of the pending call",
+                    "set_attr"]
+    P.native.append(dict(name="faults", adapter="c13:faults", thorough_only=True, payload={"mode": "search"},
+                         bound="3 workers, 12 scenarios: close while a failed step is pending (with/without terminate), exception classes with 1/2/5 constructor "
+                               "arguments, unpicklable exceptions, timeout then close(timeout) / then call, worker SIGKILLed in step (index 0/1) and while idle"))
     P.native.append(dict(name="misuse", adapter="c13:misuse", thorough_only=True, bound="3 workers; out-of-order calls; one raiser / one sleeper / raiser+sleeper",
                          payload={"mode": "search"}))
     return P
